@@ -32,6 +32,13 @@ func render(v interface{}) string {
 			parts[i] = render(e)
 		}
 		return "[" + strings.Join(parts, ",") + "]"
+	case rawLeaf:
+		if len(x) == 0 {
+			return "r"
+		}
+		return "r" + hx.Hex([]byte(x))
+	case nilLeaf:
+		return "n"
 	default:
 		return fmt.Sprintf("?%T", v)
 	}
@@ -297,7 +304,24 @@ func deRaw(v interface{}) interface{} {
 // Typed targets: the property judged directly on the real code —
 //   (R) for every generated value v:  decode(encode(v)) == v
 //   (C) for every byte string bs:     decode(bs) ok  ⇒  encode(decoded) == bs
+// and the typed decoders/encoders compared with the Lean typed model (Aqv.Model.RlpTyped):
+//   tdec <tydesc> <hex>   → ok <decoded value rendered as an item> | err     (every canonical encoding, mutation and the
+//                                                                              small exhaustive scope of every target)
+//   tenc <tydesc> <value> → ok <hex>                                          (values incl. nil pointers, rendered `n`)
+// The type descriptor of each Go target type is written by hand next to the target:
+//   u8 u16 u32 u64 | big | bool | b ([]byte, string) | b<N> ([N]byte) | l(T) ([]T) | a<N>(T) ([N]T) | s(T,…) struct |
+//   st(T,…;T) struct with `rlp:"tail"` | p(T) *T | pn(T) *T `rlp:"nil"` | raw | if (interface{})
 // ---------------------------------------------------------------------------------------------------------------
+
+const (
+	dIgnLite = "s(u16,b)"
+	dHeader  = "s(b32,b32,b20,b32,b32,b32,b256,big,big,u64,u64,big,b,b32,b8)" // Version is `rlp:"-"`
+	dTx      = "s(u64,big,u64,pn(b20),big,b,big,big,big)"                      // txdata; Hash is `rlp:"-"`
+	dLog     = "s(b20,l(b32),b)"                                               // rlpLog
+	dReceipt = "s(b,u64,b256,l(p(" + dLog + ")))"                              // receiptRLP (+ status rule, see skipErr)
+	dAccount = "s(u64,big,b32,b)"
+	dBlock   = "s(p(" + dHeader + "),l(p(" + dTx + ")),l(p(" + dHeader + ")))" // extblock
+)
 
 type tNil struct {
 	A uint64
@@ -333,6 +357,47 @@ type tIgnLite struct {
 	A uint16
 	B []byte
 }
+// every element kind that makeOptionalPtrDecoder distinguishes (fix 7811107)
+type tOpt struct {
+	A *uint64      `rlp:"nil"`
+	B *[]byte      `rlp:"nil"`
+	C *[4]byte     `rlp:"nil"`
+	D *[]uint16    `rlp:"nil"`
+	E *tIgnLite    `rlp:"nil"`
+	F *[2]uint16   `rlp:"nil"`
+	G *bool        `rlp:"nil"`
+	H *string      `rlp:"nil"`
+	I *interface{} `rlp:"nil"`
+}
+
+const dOpt = "s(pn(u64),pn(b),pn(b4),pn(l(u16)),pn(" + dIgnLite + "),pn(a2(u16)),pn(bool),pn(b),pn(if))"
+
+// plain pointers of every element kind: never nil after decoding; nil encodes per makePtrWriter
+type tPtrs struct {
+	A *uint64
+	B *[]byte
+	C *[4]byte
+	D *[]uint16
+	E *tIgnLite
+	F *[2]uint16
+	G *bool
+	H *string
+	I *big.Int
+	J **uint64
+	K *interface{}
+}
+
+const dPtrs = "s(p(u64),p(b),p(b4),p(l(u16)),p(" + dIgnLite + "),p(a2(u16)),p(bool),p(b),big,p(p(u64)),p(if))"
+
+// `rlp:"nil"` on a pointer to a pointer: Go keeps strict=false (both empty values decode to nil) — outside the
+// canonical sub-universe (Ty.canon), compared with the model only.
+type tPP struct {
+	A uint8
+	P **uint64 `rlp:"nil"`
+}
+
+const dPP = "s(u8,pn(p(u64)))"
+
 type tUints struct {
 	A uint8
 	B uint16
@@ -344,9 +409,18 @@ type tUints struct {
 
 type target struct {
 	name string
-	mk   func() interface{}             // fresh pointer to decode into
-	gen  func(r *hx.Rng) interface{}    // random value (pointer), may be nil if only (C) applies
+	mk   func() interface{}          // fresh pointer to decode into
+	gen  func(r *hx.Rng) interface{} // random value (pointer), may be nil if only (C) applies
 	eq   func(a, b interface{}) bool
+	desc string // type descriptor understood by the Lean driver
+	// noCanon: the type is outside the canonical sub-universe (Go accepts two encodings by design); the direct
+	// canonicity judgement is skipped, the comparison with the model is not.
+	noCanon bool
+	// skipErr: a decode error containing this text comes from a rule outside the descriptor language (the status
+	// rule of Receipt.DecodeRLP); such cases are not sent to the model.
+	skipErr string
+	// genEnc: values that are only encoded (nil plain pointers do not round-trip by design) — `tenc`/`enc` lines
+	genEnc func(r *hx.Rng) interface{}
 }
 
 func deepEq(a, b interface{}) bool { return reflect.DeepEqual(a, b) }
@@ -451,31 +525,31 @@ func rReceipt(r *hx.Rng) *types.Receipt {
 
 func targets() []target {
 	return []target{
-		{"uint8", func() interface{} { return new(uint8) }, func(r *hx.Rng) interface{} { v := uint8(rU64(r)); return &v }, deepEq},
-		{"uint16", func() interface{} { return new(uint16) }, func(r *hx.Rng) interface{} { v := uint16(rU64(r)); return &v }, deepEq},
-		{"uint32", func() interface{} { return new(uint32) }, func(r *hx.Rng) interface{} { v := uint32(rU64(r)); return &v }, deepEq},
-		{"uint64", func() interface{} { return new(uint64) }, func(r *hx.Rng) interface{} { v := rU64(r); return &v }, deepEq},
-		{"bool", func() interface{} { return new(bool) }, func(r *hx.Rng) interface{} { v := r.Bool(); return &v }, deepEq},
-		{"big", func() interface{} { return new(big.Int) }, func(r *hx.Rng) interface{} { return rBig(r) }, func(a, b interface{}) bool { return a.(*big.Int).Cmp(b.(*big.Int)) == 0 }},
-		{"bytes", func() interface{} { return new([]byte) }, func(r *hx.Rng) interface{} { v := rBytes(r); return &v }, deepEq},
-		{"string", func() interface{} { return new(string) }, func(r *hx.Rng) interface{} { v := string(rBytes(r)); return &v }, deepEq},
-		{"[1]byte", func() interface{} { return new([1]byte) }, func(r *hx.Rng) interface{} { v := [1]byte{alphabet[r.Intn(len(alphabet))]}; return &v }, deepEq},
+		{"uint8", func() interface{} { return new(uint8) }, func(r *hx.Rng) interface{} { v := uint8(rU64(r)); return &v }, deepEq, "u8", false, "", nil},
+		{"uint16", func() interface{} { return new(uint16) }, func(r *hx.Rng) interface{} { v := uint16(rU64(r)); return &v }, deepEq, "u16", false, "", nil},
+		{"uint32", func() interface{} { return new(uint32) }, func(r *hx.Rng) interface{} { v := uint32(rU64(r)); return &v }, deepEq, "u32", false, "", nil},
+		{"uint64", func() interface{} { return new(uint64) }, func(r *hx.Rng) interface{} { v := rU64(r); return &v }, deepEq, "u64", false, "", nil},
+		{"bool", func() interface{} { return new(bool) }, func(r *hx.Rng) interface{} { v := r.Bool(); return &v }, deepEq, "bool", false, "", nil},
+		{"big", func() interface{} { return new(big.Int) }, func(r *hx.Rng) interface{} { return rBig(r) }, func(a, b interface{}) bool { return a.(*big.Int).Cmp(b.(*big.Int)) == 0 }, "big", false, "", nil},
+		{"bytes", func() interface{} { return new([]byte) }, func(r *hx.Rng) interface{} { v := rBytes(r); return &v }, deepEq, "b", false, "", nil},
+		{"string", func() interface{} { return new(string) }, func(r *hx.Rng) interface{} { v := string(rBytes(r)); return &v }, deepEq, "b", false, "", nil},
+		{"[1]byte", func() interface{} { return new([1]byte) }, func(r *hx.Rng) interface{} { v := [1]byte{alphabet[r.Intn(len(alphabet))]}; return &v }, deepEq, "b1", false, "", nil},
 		{"[][1]byte", func() interface{} { return new([][1]byte) }, func(r *hx.Rng) interface{} {
 			v := [][1]byte{}
 			for i := r.Intn(4); i > 0; i-- {
 				v = append(v, [1]byte{alphabet[r.Intn(len(alphabet))]})
 			}
 			return &v
-		}, deepEq},
-		{"[20]byte", func() interface{} { return new([20]byte) }, func(r *hx.Rng) interface{} { var v [20]byte; copy(v[:], r.Bytes(20)); if r.Intn(3) == 0 { v[0] = 0 }; return &v }, deepEq},
+		}, deepEq, "l(b1)", false, "", nil},
+		{"[20]byte", func() interface{} { return new([20]byte) }, func(r *hx.Rng) interface{} { var v [20]byte; copy(v[:], r.Bytes(20)); if r.Intn(3) == 0 { v[0] = 0 }; return &v }, deepEq, "b20", false, "", nil},
 		{"[]uint16", func() interface{} { return new([]uint16) }, func(r *hx.Rng) interface{} {
 			v := []uint16{}
 			for i := r.Intn(5); i > 0; i-- {
 				v = append(v, uint16(rU64(r)))
 			}
 			return &v
-		}, deepEq},
-		{"[3]uint16", func() interface{} { return new([3]uint16) }, func(r *hx.Rng) interface{} { v := [3]uint16{uint16(rU64(r)), uint16(rU64(r)), uint16(rU64(r))}; return &v }, deepEq},
+		}, deepEq, "l(u16)", false, "", nil},
+		{"[3]uint16", func() interface{} { return new([3]uint16) }, func(r *hx.Rng) interface{} { v := [3]uint16{uint16(rU64(r)), uint16(rU64(r)), uint16(rU64(r))}; return &v }, deepEq, "a3(u16)", false, "", nil},
 		{"tNil", func() interface{} { return new(tNil) }, func(r *hx.Rng) interface{} {
 			v := &tNil{A: rU64(r), B: rBytes(r)}
 			if r.Bool() {
@@ -483,15 +557,15 @@ func targets() []target {
 				v.P = &a
 			}
 			return v
-		}, deepEq},
+		}, deepEq, "s(u64,pn(b20),b)", false, "", nil},
 		{"tTail", func() interface{} { return new(tTail) }, func(r *hx.Rng) interface{} {
 			v := &tTail{A: uint8(rU64(r)), Tail: []uint16{}}
 			for i := r.Intn(4); i > 0; i-- {
 				v.Tail = append(v.Tail, uint16(rU64(r)))
 			}
 			return v
-		}, encEq},
-		{"tIgn", func() interface{} { return new(tIgn) }, func(r *hx.Rng) interface{} { return &tIgn{A: uint32(rU64(r)), B: string(rBytes(r))} }, deepEq},
+		}, encEq, "st(u8;u16)", false, "", nil},
+		{"tIgn", func() interface{} { return new(tIgn) }, func(r *hx.Rng) interface{} { return &tIgn{A: uint32(rU64(r)), B: string(rBytes(r))} }, deepEq, "s(u32,b)", false, "", nil},
 		{"tArr", func() interface{} { return new(tArr) }, func(r *hx.Rng) interface{} {
 			v := &tArr{}
 			v.A[0] = alphabet[r.Intn(len(alphabet))]
@@ -499,10 +573,10 @@ func targets() []target {
 			copy(v.C[:], r.Bytes(2))
 			copy(v.E[:], r.Bytes(33))
 			return v
-		}, deepEq},
+		}, deepEq, "s(b1,b1,b2,b0,b33)", false, "", nil},
 		{"tUints", func() interface{} { return new(tUints) }, func(r *hx.Rng) interface{} {
 			return &tUints{uint8(rU64(r)), uint16(rU64(r)), uint32(rU64(r)), rU64(r), uint(rU64(r)), rBig(r)}
-		}, encEq},
+		}, encEq, "s(u8,u16,u32,u64,u64,big)", false, "", nil},
 		{"tNest", func() interface{} { return new(tNest) }, func(r *hx.Rng) interface{} {
 			v := &tNest{U: rU64(r), Big: rBig(r), S: []tIgnLite{}, F: r.Bool(), I: rBytes(r)}
 			for i := r.Intn(3); i > 0; i-- {
@@ -512,14 +586,14 @@ func targets() []target {
 			raw, _ := rlp.EncodeToBytes(genItem(r, 2))
 			v.R = raw
 			return v
-		}, encEq},
-		{"Header", func() interface{} { return new(types.Header) }, func(r *hx.Rng) interface{} { return rHeader(r) }, encEq},
-		{"Transaction", func() interface{} { return new(types.Transaction) }, func(r *hx.Rng) interface{} { return rTx(r) }, encEq},
-		{"Log", func() interface{} { return new(types.Log) }, func(r *hx.Rng) interface{} { return rLog(r) }, encEq},
-		{"Receipt", func() interface{} { return new(types.Receipt) }, func(r *hx.Rng) interface{} { return rReceipt(r) }, encEq},
+		}, encEq, "s(u64,big,l("+dIgnLite+"),p("+dIgnLite+"),raw,bool,if)", false, "", nil},
+		{"Header", func() interface{} { return new(types.Header) }, func(r *hx.Rng) interface{} { return rHeader(r) }, encEq, dHeader, false, "", nil},
+		{"Transaction", func() interface{} { return new(types.Transaction) }, func(r *hx.Rng) interface{} { return rTx(r) }, encEq, dTx, false, "", nil},
+		{"Log", func() interface{} { return new(types.Log) }, func(r *hx.Rng) interface{} { return rLog(r) }, encEq, dLog, false, "", nil},
+		{"Receipt", func() interface{} { return new(types.Receipt) }, func(r *hx.Rng) interface{} { return rReceipt(r) }, encEq, dReceipt, false, "invalid receipt status", nil},
 		{"Account", func() interface{} { return new(state.Account) }, func(r *hx.Rng) interface{} {
 			return &state.Account{Nonce: rU64(r), Balance: rBig(r), Root: rHash(r), CodeHash: r.Bytes(32)}
-		}, encEq},
+		}, encEq, dAccount, false, "", nil},
 		{"Block", func() interface{} { return new(types.Block) }, func(r *hx.Rng) interface{} {
 			var txs []*types.Transaction
 			for i := r.Intn(3); i > 0; i-- {
@@ -530,17 +604,136 @@ func targets() []target {
 				uncles = append(uncles, rHeader(r))
 			}
 			return types.NewBlock(rHeader(r), txs, uncles, nil)
-		}, encEq},
+		}, encEq, dBlock, false, "", nil},
+		{"tOpt", func() interface{} { return new(tOpt) }, func(r *hx.Rng) interface{} {
+			v := &tOpt{}
+			if r.Bool() {
+				x := rU64(r)
+				v.A = &x
+			}
+			if r.Bool() {
+				x := rBytes(r)
+				v.B = &x
+			}
+			if r.Bool() {
+				var x [4]byte
+				copy(x[:], r.Bytes(4))
+				v.C = &x
+			}
+			if r.Bool() {
+				x := []uint16{}
+				for i := r.Intn(3); i > 0; i-- {
+					x = append(x, uint16(rU64(r)))
+				}
+				v.D = &x
+			}
+			if r.Bool() {
+				v.E = &tIgnLite{uint16(rU64(r)), rBytes(r)}
+			}
+			if r.Bool() {
+				v.F = &[2]uint16{uint16(rU64(r)), uint16(rU64(r))}
+			}
+			if r.Bool() {
+				x := r.Bool()
+				v.G = &x
+			}
+			if r.Bool() {
+				x := string(rBytes(r))
+				v.H = &x
+			}
+			if r.Bool() {
+				// an interface holding the empty string would encode as 0x80, the wrong kind of empty value for
+				// *interface{} (not a supported value: no round trip by design of `rlp:"nil"`)
+				var x interface{} = genItem(r, 2)
+				if b, ok := x.([]byte); ok && len(b) == 0 {
+					x = []byte{1}
+				}
+				v.I = &x
+			}
+			return v
+		}, encEq, dOpt, false, "", nil},
+		{"tPtrs", func() interface{} { return new(tPtrs) }, func(r *hx.Rng) interface{} { return mkPtrs(r, true) }, encEq, dPtrs, false, "",
+			func(r *hx.Rng) interface{} { return mkPtrs(r, false) }},
+		{"tPP", func() interface{} { return new(tPP) }, func(r *hx.Rng) interface{} {
+			v := &tPP{A: uint8(rU64(r))}
+			if r.Bool() {
+				var q *uint64
+				if r.Bool() {
+					x := rU64(r)
+					q = &x
+				}
+				v.P = &q
+			}
+			return v
+		}, encEq, dPP, true, "", nil},
 	}
 }
 
-func safeSpecItem(v interface{}) (it interface{}, ok bool) {
+
+func mkPtrs(r *hx.Rng, allSet bool) *tPtrs {
+	some := func() bool { return allSet || r.Intn(3) > 0 }
+	v := &tPtrs{}
+	if some() {
+		x := rU64(r)
+		v.A = &x
+	}
+	if some() {
+		x := rBytes(r)
+		v.B = &x
+	}
+	if some() {
+		var x [4]byte
+		copy(x[:], r.Bytes(4))
+		v.C = &x
+	}
+	if some() {
+		x := []uint16{}
+		for i := r.Intn(3); i > 0; i-- {
+			x = append(x, uint16(rU64(r)))
+		}
+		v.D = &x
+	}
+	if some() {
+		v.E = &tIgnLite{uint16(rU64(r)), rBytes(r)}
+	}
+	if some() {
+		v.F = &[2]uint16{uint16(rU64(r)), uint16(rU64(r))}
+	}
+	if some() {
+		x := r.Bool()
+		v.G = &x
+	}
+	if some() {
+		x := string(rBytes(r))
+		v.H = &x
+	}
+	if some() {
+		v.I = rBig(r)
+	}
+	if some() {
+		var q *uint64
+		if r.Bool() {
+			x := rU64(r)
+			q = &x
+		}
+		v.J = &q
+	}
+	if some() {
+		var x interface{} = genItem(r, 2)
+		v.K = &x
+	}
+	return v
+}
+
+func safeSpecItem(v interface{}) (it interface{}, ok bool) { return safeSpecItemM(v, specMode{}) }
+
+func safeSpecItemM(v interface{}, m specMode) (it interface{}, ok bool) {
 	defer func() {
 		if recover() != nil {
 			ok = false
 		}
 	}()
-	return specItem(reflect.ValueOf(v).Elem()), true
+	return specItemM(reflect.ValueOf(v).Elem(), m), true
 }
 
 func typed(run *hx.Run, rng *hx.Rng) {
@@ -555,7 +748,24 @@ func typed(run *hx.Run, rng *hx.Rng) {
 			out := hx.Safe(func() string {
 				p := t.mk()
 				if err := rlp.DecodeBytes(bs, p); err != nil {
+					if t.skipErr != "" && strings.Contains(err.Error(), t.skipErr) {
+						run.Count("tdec-skipped:" + t.name)
+					} else {
+						run.Case("tdec "+t.desc+" "+hx.Hex(bs), "err")
+						run.Count("tdec:err")
+					}
 					return "err"
+				}
+				// the decoded value, rendered through the independent Go-value→item mapping, for the Lean typed decoder
+				if it, ok := safeSpecItemM(p, specMode{rawLeaf: true}); ok {
+					run.Case("tdec "+t.desc+" "+hx.Hex(bs), "ok "+render(it))
+					run.Count("tdec:ok")
+					run.Count("tdec-ok:" + t.name)
+				} else {
+					run.Count("tdec-unrendered:" + t.name)
+				}
+				if t.noCanon {
+					return "ok"
 				}
 				re, err := rlp.EncodeToBytes(p)
 				if err != nil {
@@ -589,6 +799,13 @@ func typed(run *hx.Run, rng *hx.Rng) {
 				run.Count("enc-typed")
 			} else {
 				run.Count("enc-typed-skipped")
+			}
+			// tie the typed encoder (incl. its nil-pointer rules) to the Lean typed encoder
+			if it, ok := safeSpecItemM(v, specMode{rawLeaf: true, nilLeaf: true}); ok {
+				run.Case("tenc "+t.desc+" "+render(it), "ok "+hx.Hex(enc))
+				run.Count("tenc")
+			} else {
+				run.Count("tenc-skipped")
 			}
 			run.Current("typed-rt " + t.name + " " + hx.Hex(enc))
 			out := hx.Safe(func() string {
@@ -629,6 +846,24 @@ func typed(run *hx.Run, rng *hx.Rng) {
 					}
 				}
 				checkCanon(m, "mutation")
+			}
+		}
+		// encode-only values (nil plain pointers): typed encoder vs the spec encoder and vs the Lean typed encoder
+		for i := 0; t.genEnc != nil && i < nVals; i++ {
+			v := t.genEnc(r)
+			enc, err := rlp.EncodeToBytes(v)
+			if err != nil {
+				run.Violate("encode-error", t.name, t.name, err.Error())
+				continue
+			}
+			if it, ok := safeSpecItem(v); ok {
+				run.Case("enc "+render(it), "ok "+hx.Hex(enc))
+				run.Count("enc-typed")
+			}
+			if it, ok := safeSpecItemM(v, specMode{rawLeaf: true, nilLeaf: true}); ok {
+				run.Case("tenc "+t.desc+" "+render(it), "ok "+hx.Hex(enc))
+				run.Count("tenc")
+				run.Count("tenc-nilptrs")
 			}
 		}
 		// small exhaustive scope per type
